@@ -62,7 +62,7 @@ def gen_inorder(hist, rng, count=None):
             # the next report arrives in a thread that is stopped at the buffer lock of the pre-check (forced schedule)
             ev.append(('race', ci, ci, list(range(lo, hi)), hi, rng.choice(['before-lock', 'in-lock', 'after-release'])))
             return hi + 1, cap.snap.vg[1:]
-        ev.append(('reload', ci, ci, list(range(lo, hi))))
+        ev.append(('reload+other' if hi > lo and rng.random() < 0.2 else 'reload', ci, ci, list(range(lo, hi))))
         return hi, cap.snap.vg[1:]
     pos, ids = load(c0)
     while pos < n:
